@@ -25,3 +25,79 @@ func VH_C11_control_int64()   { vhC11Control("int64") }
 func VH_C11_control_uint64()  { vhC11Control("uint64") }
 func VH_C11_control_float64() { vhC11Control("float64") }
 func VH_C11_control_string()  { vhC11Control("string") }
+
+// VH_C11_faults: Control and the first load report corruption iff the
+// set of object files differs from the set of indexed objects; Repair
+// makes them agree without touching any file; afterwards searches
+// reflect file contents.
+func VH_C11_faults() {
+	cfg := vhCfgs[[]int{0, 2}[vChoice("cfg", 2)]]
+	db, root := vhOpenDB(cfg)
+	dir := root + "/sod.vObj"
+	ext := ".json"
+	if cfg.compress {
+		ext = ".json.gz"
+	}
+	n := vLen("n", 1, vBound("N", 2))
+	var rows []vhRow
+	for k := 0; k < n; k++ {
+		o := vhNewObj()
+		vAssert("C11.build.insert", db.InsertOrUpdate(o) == nil)
+		rows = append(rows, vhRow{o.UUID(), *o})
+	}
+	// faults
+	var disk []vhRow    // what the files say after the faults
+	indexed := 0        // how many of the original objects stay indexed
+	diverged := false
+	var rmFile, rmIndex []string
+	for i := range rows {
+		switch vChoice("fault", 3) {
+		case 0: // healthy
+			disk = append(disk, rows[i])
+			indexed++
+		case 1: // file removed, entry stays
+			rmFile = append(rmFile, rows[i].uuid)
+			indexed++
+			diverged = true
+		case 2: // index entry removed, file stays
+			rmIndex = append(rmIndex, rows[i].uuid)
+			disk = append(disk, rows[i])
+			diverged = true
+		}
+	}
+	if len(rmIndex) > 0 {
+		s, err := db.Schema(&vObj{})
+		vAssert("C11.build.schema", err == nil)
+		for _, u := range rmIndex {
+			s.unindexByUUID(u)
+		}
+	}
+	vAssert("C11.build.close", db.Close() == nil)
+	for _, u := range rmFile {
+		vRemoveFile(dir + "/" + u + ext)
+	}
+	if vChoice("add", 2) == 1 {
+		// a well-formed, unindexed object file (copy of the first object's file)
+		const nu = "aaaaaaaa-aaaa-4aaa-8aaa-aaaaaaaaaaaa"
+		src := dir + "/" + rows[0].uuid + ext
+		if vFileExists(src) {
+			vAssert("C11.build.copy", vCopyFile(src, dir+"/"+nu+ext))
+			disk = append(disk, vhRow{nu, rows[0].o})
+			diverged = true
+		}
+	}
+	_ = indexed
+	db2 := Open(root)
+	_, err := db2.Schema(&vObj{})
+	vAssert("C11.load.corrupt_iff_diverged", vIff(IsIndexCorrupted(err), diverged))
+	vAssert("C11.load.no_other_error", err == nil || IsIndexCorrupted(err))
+	cerr := db2.Control()
+	vAssert("C11.control.corrupt_iff_diverged", vIff(IsIndexCorrupted(cerr), diverged))
+	vAssert("C11.control.no_other_error", cerr == nil || IsIndexCorrupted(cerr))
+	before := vFsFingerprint(root)
+	vAssert("C11.repair.ok", db2.Repair(&vObj{}) == nil)
+	vAssert("C11.repair.touches_no_file", vFsFingerprint(root) == before)
+	vAssert("C11.repair.then_control_ok", db2.Control() == nil)
+	vhCheckReads("C11.repaired", db2, disk)
+	vhCheckSearch("C11.repaired", db2, disk, "A")
+}
